@@ -740,6 +740,74 @@ Module Witness.
   Qed.
 End Witness.
 
+(* ====================================================================== *)
+(* 6. subroutine_free cannot simply be dropped: a refutation for missing-fee-check *)
+(* ====================================================================== *)
+(* A parsed, structured, NON-recursive logic-sig with one subroutine that both approves and returns (the shape of
+   known finding D4), run at group index 0:
+       txn GroupIndex; int 0; ==; assert; callsub S; int 1; return
+       S: txn Sender; global CreatorAddress; ==; bnz ret; int 1; return
+       ret: gtxn 0 Fee; int 1000; <=; assert; retsub
+   The key `gtxn 0 Fee` is bounded on the returning branch only.  The backward pass intersects the callsub block with
+   its return point (Analysis.livein), so the ENTRY block is validated for index 0 (its only possible index) and the
+   path search reports nothing; the approving exit inside S is unvalidated and group mode reports the transaction.
+   The contract does approve a transaction at index 0 with any fee (through `int 1; return` in S): here group mode is
+   right and the single-contract detector misses (D4).  So for functions with subroutines leaves_justified does not
+   follow from the solver's equations even for a single-field detector. *)
+Module FeeSubRefuted.
+  Definition linesS : list string :=
+    ["#pragma version 6"; "txn GroupIndex"; "int 0"; "=="; "assert"; "callsub S"; "int 1"; "return";
+     "S:"; "txn Sender"; "global CreatorAddress"; "=="; "bnz ret"; "int 1"; "return";
+     "ret:"; "gtxn 0 Fee"; "int 1000"; "<="; "assert"; "retsub"].
+  Definition pS : prog := Eval vm_compute in Witness.prog_of linesS.
+  Definition tS : teal := Eval vm_compute in Witness.teal_of pS.
+  Definition fS : func := whole_function tS.
+  Definition rS : fn_result := Eval vm_compute in Witness.res_of fS.
+  Lemma parsedS :
+    parse_program (unlines linesS) = Ok pS /\ parse_teal pS = Ok tS /\ struct_okb tS = true /\
+    subroutine_freeb fS = false /\ run_all fS 100 = Done rS.
+  Proof. repeat split; vm_compute; reflexivity. Qed.
+  Example validatedS :
+    map (fun b => (b_idx b, validated_in_block rS checks_missing_fee_check None (b_idx b))) (fn_blocks fS) =
+    [(0, true); (1, true); (2, false); (4, true); (3, false)].
+  Proof. vm_compute. reflexivity. Qed.
+  Example differS :
+    run_detector fS rS 100 "missing-fee-check" checks_missing_fee_check = Done [] /\
+    txn_vulnerable [(fS, rS)] checks_missing_fee_check "STATELESS" None [Witness.TL] Witness.TL = true.
+  Proof. split; vm_compute; reflexivity. Qed.
+End FeeSubRefuted.
+
+Theorem single_group_eq_contract_fee_subroutine_refuted :
+  ~ (forall funcs dtype vtypes t k p tl r fuelr fuel ps,
+       parse_teal p = Ok tl -> struct_ok tl -> graph_wf (whole_function tl) = true ->
+       single_contract t k -> nth_error funcs k = Some (whole_function tl, r) -> relative_accessors [t] t = [] ->
+       eligible dtype vtypes t -> g_abs t = None ->
+       run_all (whole_function tl) fuelr = Done r ->
+       run_detector (whole_function tl) r fuel "missing-fee-check" checks_missing_fee_check = Done ps ->
+       (txn_vulnerable funcs checks_missing_fee_check dtype vtypes [t] t = true <-> ps <> [])).
+Proof.
+  intros H. destruct FeeSubRefuted.parsedS as (_ & Hp & Hok & _ & Hrun).
+  pose proof (struct_okb_sound _ Hok) as Hok'.
+  destruct (H [(FeeSubRefuted.fS, FeeSubRefuted.rS)] "STATELESS" None Witness.TL 0 FeeSubRefuted.pS FeeSubRefuted.tS
+              FeeSubRefuted.rS 100 100 [] Hp Hok' (graph_wf_whole_function _ _ Hp Hok')
+              (or_introl (conj eq_refl eq_refl)) eq_refl eq_refl (eligible_stateless Witness.TL eq_refl) eq_refl Hrun
+              (proj1 FeeSubRefuted.differS)) as [H1 _].
+  exact (H1 (proj2 FeeSubRefuted.differS) eq_refl).
+Qed.
+
+Corollary leaves_justified_fee_subroutine_refuted :
+  ~ leaves_justified FeeSubRefuted.fS FeeSubRefuted.rS checks_missing_fee_check.
+Proof.
+  intros Hj.
+  pose proof (single_group_eq_contract_partial [(FeeSubRefuted.fS, FeeSubRefuted.rS)] checks_missing_fee_check
+                "STATELESS" None Witness.TL 0 FeeSubRefuted.fS FeeSubRefuted.rS
+                (or_introl (conj eq_refl eq_refl)) eq_refl eq_refl (eligible_stateless Witness.TL eq_refl)
+                100 "missing-fee-check" []) as H.
+  assert (Hn : "missing-fee-check" <> "group-size-check") by discriminate.
+  destruct (H Hn eq_refl Hj (proj1 FeeSubRefuted.differS)) as [H1 _].
+  exact (H1 (proj2 FeeSubRefuted.differS) eq_refl).
+Qed.
+
 Print Assumptions solve_unvalidated_reachable.
 Print Assumptions unval_iff_key.
 Print Assumptions family_unvalidated_reachable.
@@ -755,3 +823,5 @@ Print Assumptions Witness.fee_eq_on_A.
 Print Assumptions Witness.fee_eq_on_B.
 Print Assumptions Witness.fee_path_on_A.
 Print Assumptions Witness.kind_eq_on_C.
+Print Assumptions single_group_eq_contract_fee_subroutine_refuted.
+Print Assumptions leaves_justified_fee_subroutine_refuted.
